@@ -56,6 +56,8 @@ def run_case(kind, case):
             r = SigmaRule.from_dict(copy.deepcopy(RULE))
             p.apply(r)
             return [str(ids), str(sorted(p.applied_ids)), str(r.fields), str([i.field for i in r.detection.detections["sel"].detection_items])]
+        elif kind == "c20x":
+            return run_c20x(case)
         o = drive_case(case)
         ret = o["ret"]
         if ret["ok"]:
@@ -65,6 +67,47 @@ def run_case(kind, case):
         return ["SigmaError " + type(e).__name__ + ": " + str(e)]
     except Exception as e:  # noqa: BLE001
         return ["EXC " + type(e).__name__ + ": " + str(e)]
+
+
+FIELD_NAMES = ["alpha", "b", "Zed", "f9", "user.name"]
+
+
+def run_c20x(case):
+    """Scenarios of spec/Gen_C20.tla (sets inside the library)."""
+    from sigma.backends.test import TextQueryTestBackend
+    from sigma.collection import SigmaCollection
+    from sigma.processing.pipeline import ProcessingPipeline
+    from sigma.types import SigmaRegularExpressionFlag as F
+
+    k = case["kind"]
+    if k == "reflags":
+        letter = {1: "i", 2: "m", 3: "s"}
+        flag = {1: F.IGNORECASE, 2: F.MULTILINE, 3: F.DOTALL}
+        cls = type("FlagTokens", (TextQueryTestBackend,), {
+            "re_flag_prefix": False,
+            "re_expression": "{field}=/{regex}/{flag_i}{flag_m}{flag_s}",
+            "re_flags": {flag[n]: letter[n] for n in case["supported"]},
+        })
+        # the modifiers are written in REVERSE order so that no order of the source survives by accident
+        mods = "|".join(letter[n] for n in reversed(case["flags"]))
+        doc = {"title": "t", "logsource": {"category": "c"}, "detection": {"sel": {"f|re|" + mods: "a.b"}, "condition": "sel"}}
+        return list(cls().convert(SigmaCollection.from_dicts([doc])))
+    names = [FIELD_NAMES[n - 1] for n in case["names"]]
+    if k == "strict":
+        pipe = ProcessingPipeline.from_dict({"name": "p", "priority": 1, "transformations": [
+            {"type": "field_name_mapping", "mapping": {FIELD_NAMES[n - 1]: "m_" + FIELD_NAMES[n - 1] for n in case["mapped"]}},
+            {"type": "strict_field_mapping_failure"}]})
+        doc = {"title": "t", "logsource": {"category": "c"}, "detection": {"sel": {n: "v" for n in names}, "condition": "sel"}}
+        return list(TextQueryTestBackend(pipe).convert(SigmaCollection.from_dicts([doc])))
+    if k == "vars":
+        p1 = ProcessingPipeline.from_dict({"name": "p1", "priority": 1, "vars": {names[0]: ["a1", "a2"], names[1]: ["b1"]},
+                                           "transformations": [{"type": "value_placeholders"}]})
+        p2 = ProcessingPipeline.from_dict({"name": "p2", "priority": 2, "vars": {names[1]: ["b2", "b3"], names[2]: ["c1", "c2"]},
+                                           "transformations": []})
+        doc = {"title": "t", "logsource": {"category": "c"},
+               "detection": {"sel": {"f|expand": ["%" + n + "%" for n in names]}, "condition": "sel"}}
+        return list(TextQueryTestBackend(p1 + p2).convert(SigmaCollection.from_dicts([doc])))
+    raise ValueError(k)
 
 
 def main():
